@@ -56,12 +56,7 @@ Proof.
         -- replace (length w2 + 1 - length w1)%nat with 0%nat by lia. destruct (c_from_end c); reflexivity.
         -- replace (length w2 + 1 - length w1)%nat with (S (length w2 - length w1)) by lia.
            replace (length w2 - length w1 + 1)%nat with (S (length w2 - length w1)) by lia.
-           rewrite Hfe. destruct (c_from_end c) eqn:FE.
-           ++ cbn [negb orb] in G. apply negb_true_iff in G.
-              cbn [seq]. rewrite <- seq_shift. cbn [rev]. rewrite find_app_single.
-              rewrite seq_shift. cbn [skipn]. rewrite G.
-              destruct (find _ (rev (seq 1 (length w2 - length w1)))); reflexivity.
-           ++ reflexivity.
+           rewrite !Hfe. destruct (c_from_end c); reflexivity.
   - destruct (Nat.eqb_spec (length w1) 0) as [Z1|Z1].
     + assert (k1 = []) as K1 by (destruct k1; [reflexivity|cbn in Lk1; lia]). rewrite K1 in *.
       apply Nat.eqb_eq in G. rewrite G. rewrite Z1. replace (length w2 + 1 - 0)%nat with (S (length w2)) by lia.
@@ -75,12 +70,7 @@ Proof.
         -- replace (length w2 + 1 - length w1)%nat with 0%nat by lia. destruct (c_from_end c); reflexivity.
         -- replace (length w2 + 1 - length w1)%nat with (S (length w2 - length w1)) by lia.
            replace (length w2 - length w1 + 1)%nat with (S (length w2 - length w1)) by lia.
-           rewrite Hfe. destruct (c_from_end c) eqn:FE.
-           ++ cbn [negb orb] in G. apply negb_true_iff in G.
-              cbn [seq]. rewrite <- seq_shift. cbn [rev]. rewrite find_app_single.
-              rewrite seq_shift. cbn [skipn]. rewrite G.
-              destruct (find _ (rev (seq 1 (length w2 - length w1)))); reflexivity.
-           ++ reflexivity.
+           rewrite !Hfe. destruct (c_from_end c); reflexivity.
 Qed.
 
 (* ---- mismatch --------------------------------------------------------------------------------------------- *)
